@@ -29,7 +29,7 @@ def main():
     replay_seq = None
     if a.replay and "sequence" in json.load(open(a.replay))["input"]:
         rp = json.load(open(a.replay))
-        replay_seq = [{"engine": rp.get("engine", "gin"), "sequence": [(x["edit"], x["project"]) for x in rp["input"]["sequence"]]}]
+        replay_seq = [{"engine": rp.get("engine", "gin"), "sequence": [(x["edit"], x["project"], x.get("extra")) for x in rp["input"]["sequence"]]}]
         projects = [rp["input"]["sequence"][-1]["project"]]
     elif a.replay:
         projects = [json.load(open(a.replay))["input"]]
